@@ -65,6 +65,25 @@ def ops(allow=('t', 'x', 'tx', 'unif', 'unifx', 'iso', 'aniso', 'grade'), time_b
     return st.one_of(*pool) if len(set(map(id, pool))) > 1 else pool[0]
 
 
+def bursts(max_len=7):
+    """local grading: bisect a leaf chosen by position class, then keep bisecting one of the two children just created"""
+    def build(kind, sel, which, n, mix):
+        out = [[kind, sel]]
+        for k in range(n):
+            kk = kind if not mix or k % 2 == 0 else ('t' if kind == 'x' else 'x')
+            out.append([kk, ['last%d' % which, 0]])
+        return out
+    return st.builds(build, st.sampled_from(['x', 'x', 't']), st.tuples(st.sampled_from(['x0', 'xL', 'corner', 'tT', 't0', 'any']),
+                     st.integers(0, 10**6)).map(list), st.integers(0, 1), st.integers(2, max_len), st.booleans())
+
+
+def graded_histories(max_ops=40, **kw):
+    """histories mixing single operations with bursts of local refinement"""
+    o = ops(**kw)
+    piece = st.one_of(o.map(lambda x: [x]), o.map(lambda x: [x]), bursts())
+    return st.lists(piece, min_size=min(4, max(1, max_ops // 6)), max_size=max(4, max_ops // 3)).map(lambda ll: [op for l in ll for op in l][:max_ops])
+
+
 def histories(max_ops=40, **kw):
     o = ops(**kw)
     return st.one_of(st.lists(o, min_size=0, max_size=6),
